@@ -6,7 +6,9 @@
 // recursive snapshot (type, mode, size, mtime, inode, content hash) of everything outside the
 // mailbox directory is compared before and after every single call. Hostile identifiers are
 // applied directly to ProcessInbound (as the Mid header of the received message, set directly and
-// through the library's message parser), GetInboundAnswer, SetSent and SetDeferred.
+// through the library's message parser), GetInboundAnswer, SetSent and SetDeferred, and - as a
+// history - to an outbox message with that Mid header which GetOutbound hands out and whose own
+// identifier is then given back to SetSent / SetDeferred ("relay-*").
 //
 // The "through a real Session fed by the reference B2F peer" leg is added by registering a jail
 // operation (mboxkit.RegisterJailOp) and appending cases of that kind to plan().
@@ -26,7 +28,7 @@ import (
 var Check = &vrt.Check{
 	ID:    "C12",
 	Level: "exploration",
-	Rule: "a case is a batch of calls {ProcessInbound (Mid header set directly / delivered through the message parser), GetInboundAnswer, SetSent, SetDeferred} x hostile identifiers " +
+	Rule: "a case is a batch of calls {ProcessInbound (Mid header set directly / delivered through the message parser), GetInboundAnswer, SetSent, SetDeferred, relayed outbox message with that Mid header -> GetOutbound -> SetSent(sent/rejected)/SetDeferred with the identifier handed out} x hostile identifiers " +
 		"(../ chains of depth 1-8 aimed at decoy files and at folders named like mailbox folders, absolute paths, sub-paths, '.', '..', empty, 251/255/300/5000 characters, Latin-1, UTF-8, NUL, " +
 		"backslashes, trailing dots/blanks, CR/LF, x/../../y mixtures, PRNG compositions of such segments) and a few valid MIDs, applied to a mailbox inside a chroot jail; " +
 		"an execution is non-trivial when the call really ran in the jail and the before/after snapshots of everything outside the mailbox were compared; distinct = distinct (call, identifier)",
@@ -127,7 +129,10 @@ func prngMID(seed int64, i int) string {
 var kinds = []struct {
 	kind   string
 	parsed bool
-}{{"ProcessInbound", false}, {"ProcessInbound", true}, {"GetInboundAnswer", false}, {"SetSent", false}, {"SetDeferred", false}}
+}{{"ProcessInbound", false}, {"ProcessInbound", true}, {"GetInboundAnswer", false},
+	// the relay histories come before the direct SetDeferred of the same identifier: GetOutbound does not hand out deferred messages
+	{"relay-sent", false}, {"relay-rejected", false}, {"relay-deferred", false},
+	{"SetSent", false}, {"SetDeferred", false}}
 
 type params struct {
 	Ops []mboxkit.Op `json:"ops"`
@@ -248,6 +253,7 @@ func Judge(o *vrt.Obs, res mboxkit.Result) {
 		o.Count("calls_"+r.Op.Kind, 1)
 		o.Count("result_"+retClass(r), 1)
 		if strings.HasPrefix(r.Ret, "skipped:") {
+			o.Count("skipped_"+r.Op.Kind+":"+strings.SplitN(strings.TrimPrefix(r.Ret, "skipped: "), ":", 2)[0], 1)
 			continue
 		}
 		o.Evals++
